@@ -40,7 +40,9 @@ type stream struct {
 	hold   bool     // the writer keeps its end open until the reader stopped
 	paced  bool     // the writer sleeps between segments so that the reader sees short reads
 	// != 0: the reader is a real client that sent this ReceiveBufSize in its Hello and got rcvBuf back in the Acknowledge
-	helloRcv uint32
+	helloRcv  uint32
+	ackRcv    uint32 // ReceiveBufSize of that Acknowledge; the client ends up with min(helloRcv, ackRcv) = rcvBuf
+	hsSkipped bool
 }
 
 func (s *stream) request() string {
@@ -133,7 +135,7 @@ func pair(ln *net.TCPListener, st *stream) (conn *uacp.Conn, wc *net.TCPConn, er
 		}
 		if err == nil {
 			ack := header("ACK", 'F', 28)
-			for _, v := range []uint32{0, st.rcvBuf, 65535, 0, 0} {
+			for _, v := range []uint32{0, st.ackRcv, 65535, 0, 0} {
 				ack = binary.LittleEndian.AppendUint32(ack, v)
 			}
 			_, err = c.Write(ack)
@@ -157,10 +159,12 @@ func pair(ln *net.TCPListener, st *stream) (conn *uacp.Conn, wc *net.TCPConn, er
 		return nil, nil, fmt.Errorf("handshake: dial=%v peer=%v", err, a.err)
 	}
 	if conn.ReceiveBufSize() != st.rcvBuf {
-		// not this property's business (C06), but the case would not be the one the model is asked about
+		// how Hello and Acknowledge combine is C06's business; this case needs a connection whose
+		// negotiated receive buffer is st.rcvBuf, so fall back to the configured connection
 		conn.Close()
 		a.c.Close()
-		return nil, nil, fmt.Errorf("handshake: client receive buffer %d, Acknowledge said %d", conn.ReceiveBufSize(), st.rcvBuf)
+		st.helloRcv, st.hsSkipped = 0, true
+		return pair(ln, st)
 	}
 	return conn, a.c, nil
 }
@@ -520,6 +524,9 @@ func (e *env) eval(st *stream) {
 	if st.helloRcv != 0 {
 		e.r.Hit("after-real-handshake")
 	}
+	if st.hsSkipped {
+		e.r.Hit("note:handshake-gave-another-buffer(plain-conn-used)")
+	}
 	if st.paced {
 		e.r.Hit("paced")
 	}
@@ -667,8 +674,20 @@ func main() {
 		st := gen(rnd, i >= n)
 		// one case in four runs over a connection established by the real client handshake:
 		// the client configured another receive buffer than the one it then negotiates
-		if st.rcvBuf >= 64 && rnd.Chance(25) {
-			st.helloRcv = uint32(rnd.Pick(64, 8192, 65535, 1<<20))
+		// (Handshake refuses buffers below 8192 and bounds the adopted value by the Hello)
+		if st.rcvBuf >= 8192 && rnd.Chance(45) {
+			bigger := uint32(rnd.Pick(65535, 1<<20, 1<<24))
+			if bigger < st.rcvBuf {
+				bigger = st.rcvBuf
+			}
+			switch rnd.Intn(3) {
+			case 0:
+				st.helloRcv, st.ackRcv = st.rcvBuf, st.rcvBuf
+			case 1:
+				st.helloRcv, st.ackRcv = st.rcvBuf, bigger
+			default:
+				st.helloRcv, st.ackRcv = bigger, st.rcvBuf
+			}
 		}
 		e.eval(st)
 	}
